@@ -34,6 +34,14 @@ CLAIMED["C18"] = (
     "DESIGN.md section 5 / C18",
 )
 
+for _pid, _what in (("C10", "enum detection (members, values, comments, Kind, IsIota soundness/completeness)"), ("C11", "union detection, membership and order, Struct.Implements of every reachable struct node instance"), ("C12", "type graph closure, classification, Type() identity, field identity with embedded flattening, source order, termination")):
+    CLAIMED[_pid] = (
+        "reference-model monitor: gomacro's analysis result compared in-process with an independent go/types + go/ast walk over synthesised programs",
+        "Synthesised programs covering the declaration forms of the quantifier are analysed by the real NewAnalysisFromFile in worker processes; an oracle written independently of gomacro (go/types, go/ast, types.Implements) computes the expected " + _what + " and every reachable node of the result is compared with it. Held on the programs produced (counts and feature histogram in evidence).",
+        "Trusted: go/types objects delivered by packages.Load; the reference model in harness/monitors/oracle_analysis.go / oracle_c12.go as the specification.",
+        "DESIGN.md section 5 / " + _pid,
+    )
+
 NOT_YET = "check not built yet (work in progress, see DESIGN.md section 5 for the planned monitor)"
 NOT_APPLICABLE = {}
 
